@@ -499,7 +499,7 @@ where
 
         // Pruner removes already sampled headers and creates gaps in the ranges.
         // Syncer must ignore those gaps.
-        let synced_ranges = pruned_ranges.clone() + &store_ranges;
+        let synced_ranges = pruned_ranges + &store_ranges;
 
         let next_batch = calculate_range_to_fetch(
             subjective_head_height,
@@ -542,6 +542,10 @@ where
                 // The header above the batch was synced but got pruned since. Edges of the
                 // synced ranges are pruned only after they fall out of the sampling window,
                 // so anything below it is outside of the sampling window too.
+                //
+                // Pruned ranges are read again because the header could have been pruned
+                // after the ranges used for the batch calculation were read.
+                let pruned_ranges = self.store.get_pruned_ranges().await?;
                 if pruned_ranges.contains(next_batch.end() + 1) {
                     return Ok(());
                 }
